@@ -34,6 +34,14 @@ def check(ctx: Ctx) -> None:
     r1_noskip(ctx, "C07.R5")
     from .c10 import r4 as c10_r4
     c10_r4(ctx, "C07.R6")
+    # failing closed is a property of THE deleter: a second deleter (maintenance API, eager clean-up) has none of these guards
+    from .c09 import r3 as c09_r3
+    ctx.shared(c09_r3, "C09.R3", "C07.R7", "every deleter is the fail-closed collector or a sanctioned owner")
+    # what the collector is TOLD must be trustworthy: no function it calls (metadata resolution, manifest readers, the storage
+    # backends' stat / list / read) turns a failure into a default answer (an older version, an empty list, mtime 0)
+    from .c14 import READ_MODULES, r1 as c14_r1
+    c14_r1(ctx, "C07.R8", [ctx.fn("garbage_collector.GarbageCollector.collect")], READ_MODULES + ("storage_backend", "s3_consistency"),
+           "collector's inputs: every handler in a function GarbageCollector.collect reaches (outside the collector itself)", 10, 12)
 
 
 def _assigns(ctx: Ctx, f: FunctionInfo, h: ast.ExceptHandler, name: str, value: object) -> bool:
